@@ -7,8 +7,9 @@ package rotate
 //@   requires req != nil && req.Mutation != nil
 //@   requires[C10] caInv(live, durPrimary, durCerts)
 //@   assigns nothing
-//@   modifies pendCerts, signerCalls, sigKey, sigDigest, lastSig
-//@   ensures[C10] err == nil ==> result != nil && pendCerts[req.SubjectKeyVersionName]
+//@   modifies pendCerts, durCerts, signerCalls, sigKey, sigDigest, lastSig
+//@   ensures[C10] err == nil ==> result != nil && pendCerts[req.SubjectKeyVersionName] && (immediate ==> durCerts[req.SubjectKeyVersionName])
+//@   ensures[C10] forall(x, string, (old(durCerts)[x] ==> durCerts[x]) && (x != req.SubjectKeyVersionName ==> durCerts[x] == old(durCerts)[x]))
 //@   ensures[C10] forall(x, string, x != req.SubjectKeyVersionName ==> pendCerts[x] == old(pendCerts)[x])
 //@   ensures[C10] err != nil ==> forall(x, string, pendCerts[x] == old(pendCerts)[x])
 
